@@ -33,7 +33,11 @@ def _call(args):
     modname, fn, desc = args
     try:
         mod = importlib.import_module(modname)
-        return getattr(mod, fn)(desc)
+        res = getattr(mod, fn)(desc)
+        if fn == "run_shard" and isinstance(res, dict):
+            for v in res.get("violations", []):
+                v["_shard"] = desc  # lets the runner re-execute the whole shard when the case alone does not reproduce
+        return res
     except BaseException:  # noqa
         return {"_error": f"{modname}.{fn}({json.dumps(desc, default=str)[:300]}):\n" + traceback.format_exc()}
 
@@ -107,6 +111,22 @@ def confirm(modname, cases):
         else:
             out.append(r or [])
     return out
+
+
+def confirm_in_shard(modname, shard, sig):
+    """Re-runs one whole shard in a brand-new interpreter and reports whether the signature shows up again.
+    Used for violations that do not reproduce from their case alone: the earlier cases of the shard (process-level
+    state they left behind) are part of the counterexample."""
+    env = shard.get("_env") if isinstance(shard, dict) else None
+    p = _pool(1, env, maxtasks=1)
+    try:
+        res = p.map(_call, [(modname, "run_shard", shard)], chunksize=1)[0]
+    finally:
+        p.close()
+        p.join()
+    if not isinstance(res, dict) or "_error" in res:
+        return False
+    return any(v["sig"] == sig for v in res.get("violations", []))
 
 
 def aggregate(results):
